@@ -22,7 +22,7 @@ theorem later_leader_holds_it {N : Nat} {s1 s2 : State} {as : List Action} (h1 :
     (ht : (s1.nodes n).term ≤ (s2.nodes l).term) :
     (s1.nodes n).log.take ((s1.nodes n).commit + 1) <+: (s2.nodes l).log := by
   have i1 := inv_reachable h1
-  exact leader_holds_committed (reachable_of_run h1 hr) hl (cmt_later (run_mono i1 hr) (i1.s.C1 n)) ht
+  exact leader_holds_committed (reachable_of_run h1 hr) hl (cmt_later (run_ghost_mono i1 hr) (i1.s.C1 n)) ht
 
 /-- Once any node has reported a position as committed, the entry at that position never differs on
 any node that also reports it committed — at the same time or at any later time. -/
@@ -32,11 +32,12 @@ theorem committed_entry_never_differs {N : Nat} {s1 s2 : State} {as : List Actio
     (s1.nodes a).log[p]? = (s2.nodes b).log[p]? :=
   committed_agree h1 hr a b p hpa hpb
 
-/-- While a node runs, its commit index and its applied index never move backwards. -/
+/-- While nodes run (no restart among the actions), commit index and applied index of every node never
+move backwards. -/
 theorem indices_monotone {N : Nat} {s1 s2 : State} {as : List Action} (h1 : Reachable N s1)
-    (hr : run N s1 as = some s2) (n : Nat) :
+    (hr : run N s1 as = some s2) (hnr : NoRestart as) (n : Nat) :
     (s1.nodes n).commit ≤ (s2.nodes n).commit ∧ (s1.nodes n).applied ≤ (s2.nodes n).applied :=
-  ⟨(run_mono (inv_reachable h1) hr).commit n, (run_mono (inv_reachable h1) hr).applied n⟩
+  ⟨(run_mono (inv_reachable h1) hr hnr).commit n, (run_mono (inv_reachable h1) hr hnr).applied n⟩
 
 /-- `applied ≤ commit < length of the log`, always. -/
 theorem index_bounds {N : Nat} {s : State} (h : Reachable N s) (n : Nat) :
